@@ -12,6 +12,7 @@ import CBV.Lemmas.C09Arc
 import CBV.Lemmas.C09Entity
 import CBV.Lemmas.C09Seq
 import CBV.Lemmas.C09CopyOut
+import CBV.Gen.TC09
 
 namespace CBV.C09
 open CBV
